@@ -40,7 +40,7 @@ where
     }
     
     fn is_pm_one(&self) -> bool { 
-        self.is_one() || (-self).is_one()
+        self.is_one() || self == &-Self::one()
     }
 
     // computational weight
